@@ -147,7 +147,19 @@ macro_rules! table_harness {
 	};
 }
 
-fn mk_table(entry_size: u16, multipart: bool, ref_counted: bool, filled: u64, last_removed: u64) -> ValueTable {
+// Never drop a `Result<_, Error>` whose discriminant is symbolic: the drop glue of `std::io::Error` (dyn Error vtables)
+// dominates CBMC's cost. Every call under test goes through `ok`.
+fn ok<T>(r: Result<T>) -> Option<T> {
+	match r {
+		Ok(v) => Some(v),
+		Err(e) => {
+			std::mem::forget(e);
+			None
+		},
+	}
+}
+
+pub(crate) fn mk_table(entry_size: u16, multipart: bool, ref_counted: bool, filled: u64, last_removed: u64) -> ValueTable {
 	let id = TableId::new(0, if multipart { 255 } else { 3 });
 	ValueTable {
 		id,
@@ -373,11 +385,11 @@ fn w_insert(es: usize, multipart: bool, rc: bool, has_key: bool, len: usize, fre
 	let compressed: bool = kani::any();
 	let overlays = RwLock::new(LogOverlays::with_columns(0));
 	let mut w = LogWriter::new(&overlays, 9);
-	let r = t.write_insert_plan(&tk, value, &mut w, compressed);
+	let r = ok(t.write_insert_plan(&tk, value, &mut w, compressed));
 	let slot = |p: usize| -> u64 { if p < free { A[p] } else { F + (p - free) as u64 } };
 	match r {
-		Ok(start) => assert!(start == slot(0), "U6.W.insert.returns_head_slot"),
-		Err(_) => assert!(false, "U6.W.insert.no_error"),
+		Some(start) => assert!(start == slot(0), "U6.W.insert.returns_head_slot"),
+		None => assert!(false, "U6.W.insert.no_error"),
 	}
 	let n = unsafe { REC_N };
 	assert!(n == nparts, "U6.W.insert.one_record_per_part");
@@ -446,11 +458,11 @@ fn w_replace(es: usize, rc: bool, has_key: bool, old_parts: usize, len: usize, c
 	let overlays = RwLock::new(LogOverlays::with_columns(0));
 	let mut w = LogWriter::new(&overlays, 9);
 	let r = if claimed {
-		t.write_claimed_plan(OLD[0], &tk, value, &mut w, compressed)
+		ok(t.write_claimed_plan(OLD[0], &tk, value, &mut w, compressed))
 	} else {
-		t.write_replace_plan(OLD[0], &tk, value, &mut w, compressed)
+		ok(t.write_replace_plan(OLD[0], &tk, value, &mut w, compressed))
 	};
-	assert!(r.is_ok(), "U6.W.replace.no_error");
+	assert!(r.is_some(), "U6.W.replace.no_error");
 	// a claimed slot is a bare slot: nothing of an old chain is followed
 	let reuse = if claimed { 1 } else { old_parts };
 	let slot = |p: usize| -> u64 { if p < reuse { OLD[p] } else { F + (p - reuse) as u64 } };
@@ -585,11 +597,11 @@ fn r_query_c(es: usize, multipart: bool, rc: bool, has_key: bool, nparts: usize,
 	let tk = if has_key { TableKey::Partial(key) } else { TableKey::NoHash };
 	let overlays = RwLock::new(LogOverlays::with_columns(0));
 	let w = LogWriter::new(&overlays, 9);
-	let r = t.query(&mut TableKeyQuery::Check(&tk), SLOTS[0], &w);
+	let r = ok(t.query(&mut TableKeyQuery::Check(&tk), SLOTS[0], &w));
 	let live = rcv != 0 && (!has_key || same_key);
 	let vlen = c.total() - hdr;
 	match r {
-		Ok(Some((v, cf, n))) => {
+		Some(Some((v, cf, n))) => {
 			assert!(live, "U6.R.query.some_only_if_live_and_key_matches");
 			assert!(v.len() == vlen, "U6.R.query.length");
 			let q: usize = kani::any();
@@ -598,8 +610,8 @@ fn r_query_c(es: usize, multipart: bool, rc: bool, has_key: bool, nparts: usize,
 			assert!(cf == c.compressed, "U6.R.query.compressed_flag");
 			assert!(n == rcv, "U6.R.query.ref_count");
 		},
-		Ok(None) => assert!(!live, "U6.R.query.none_only_if_dead_or_key_mismatch"),
-		Err(_) => assert!(false, "U6.R.query.no_error_on_wellformed_chain"),
+		Some(None) => assert!(!live, "U6.R.query.none_only_if_dead_or_key_mismatch"),
+		None => assert!(false, "U6.R.query.no_error_on_wellformed_chain"),
 	}
 	kani::cover!(live == (mode == 0), "reached");
 }
@@ -616,19 +628,19 @@ fn r_size_and_key(es: usize, multipart: bool, rc: bool, nparts: usize, last: usi
 	let tk = TableKey::Partial(key);
 	let overlays = RwLock::new(LogOverlays::with_columns(0));
 	let w = LogWriter::new(&overlays, 9);
-	match t.size(&tk, SLOTS[0], &w) {
-		Ok(Some((n, cf))) => assert!(n as usize == c.total() - hdr && cf == c.compressed, "U6.R.size.equals_value_length"),
+	match ok(t.size(&tk, SLOTS[0], &w)) {
+		Some(Some((n, cf))) => assert!(n as usize == c.total() - hdr && cf == c.compressed, "U6.R.size.equals_value_length"),
 		_ => assert!(false, "U6.R.size.some"),
 	}
-	match t.partial_key_at(SLOTS[0], &w) {
-		Ok(Some(k)) => {
+	match ok(t.partial_key_at(SLOTS[0], &w)) {
+		Some(Some(k)) => {
 			let d: usize = kani::any();
 			kani::assume(d < 26);
 			assert!(k[d] == c.s(ko + d), "U6.R.partial_key_at.returns_stored_tail");
 		},
 		_ => assert!(false, "U6.R.partial_key_at.some"),
 	}
-	assert!(t.has_key_at(SLOTS[0], &tk, &w).unwrap_or(false), "U6.R.has_key_at.true_for_stored_key");
+	assert!(ok(t.has_key_at(SLOTS[0], &tk, &w)) == Some(true), "U6.R.has_key_at.true_for_stored_key");
 }
 
 fn r_dead(es: usize, multipart: bool) {
@@ -642,16 +654,314 @@ fn r_dead(es: usize, multipart: bool) {
 	let overlays = RwLock::new(LogOverlays::with_columns(0));
 	let w = LogWriter::new(&overlays, 9);
 	let tk = TableKey::NoHash;
-	assert!(matches!(t.query(&mut TableKeyQuery::Check(&tk), 3, &w), Ok(None)), "U6.R.tombstone_is_not_a_value");
-	assert!(matches!(t.is_tombstone(3, &w), Ok(true)), "U6.R.is_tombstone");
-	assert!(matches!(t.has_key_at(3, &tk, &w), Ok(false)), "U6.R.has_key_at.false_for_tombstone");
+	assert!(matches!(ok(t.query(&mut TableKeyQuery::Check(&tk), 3, &w)), Some(None)), "U6.R.tombstone_is_not_a_value");
+	assert!(ok(t.is_tombstone(3, &w)) == Some(true), "U6.R.is_tombstone");
+	assert!(ok(t.has_key_at(3, &tk, &w)) == Some(false), "U6.R.has_key_at.false_for_tombstone");
 	if multipart {
 		let mut e: [u8; VES] = kani::any();
 		e[0] = 0xfe;
 		e[1] = 0xff;
 		view_put(1, e, es);
-		assert!(matches!(t.query(&mut TableKeyQuery::Check(&tk), 1, &w), Ok(None)), "U6.R.continuation_part_is_not_a_value");
+		assert!(matches!(ok(t.query(&mut TableKeyQuery::Check(&tk), 1, &w)), Some(None)), "U6.R.continuation_part_is_not_a_value");
 	}
 }
+
+
+// ================================================================== U8: reference counter transition
+fn u8_change_ref(multihead: bool, compressed: bool) {
+	ghost_reset();
+	let es = 48usize;
+	let mut e: [u8; VES] = kani::any();
+	let pre = e;
+	let (hq, total) = if multihead {
+		e[0] = 0xfd;
+		e[1] = if compressed { 0x7f } else { 0xff };
+		(10usize, es)
+	} else {
+		e[0] = 40;
+		e[1] = if compressed { 0x80 } else { 0 };
+		(2usize, 42usize)
+	};
+	view_put(3, e, total);
+	let c0 = u32::from_le_bytes([e[hq], e[hq + 1], e[hq + 2], e[hq + 3]]);
+	let t = mk_table(es as u16, multihead, true, 5, 0);
+	let overlays = RwLock::new(LogOverlays::with_columns(0));
+	let mut w = LogWriter::new(&overlays, 9);
+	let up: bool = kani::any();
+	let r = ok(t.change_ref(3, if up { 1 } else { -1 }, &mut w));
+	let n = unsafe { REC_N };
+	let expect: Option<u32> = if up {
+		Some(if c0 >= u32::MAX - 1 { u32::MAX } else { c0 + 1 })
+	} else if c0 == u32::MAX {
+		Some(u32::MAX)
+	} else if c0 >= 2 {
+		Some(c0 - 1)
+	} else {
+		None
+	};
+	match r {
+		Some(alive) => {
+			assert!(alive == expect.is_some(), "U8.change_ref.alive_iff_counter_stays_positive");
+			match expect {
+				None => assert!(n == 0, "U8.change_ref.nothing_written_when_count_reaches_zero"),
+				Some(c1) => {
+					assert!(n == 1, "U8.change_ref.exactly_one_record");
+					let (ri, rl) = unsafe { (REC_IDX[0], REC_LEN[0]) };
+					assert!(ri == 3 && rl == total, "U8.change_ref.rewrites_same_slot_same_length");
+					let got = unsafe { u32::from_le_bytes([REC_DATA[0][hq], REC_DATA[0][hq + 1], REC_DATA[0][hq + 2], REC_DATA[0][hq + 3]]) };
+					assert!(got == c1, "U8.change_ref.counter_transition");
+					let q: usize = kani::any();
+					kani::assume(q < total && (q < hq || q >= hq + 4));
+					assert!(unsafe { REC_DATA[0][q] } == e[q], "U8.change_ref.frame_value_and_key_untouched");
+				},
+			}
+		},
+		None => assert!(false, "U8.change_ref.no_error"),
+	}
+	kani::cover!(up && c0 == u32::MAX - 1, "increment into the locked value");
+	kani::cover!(!up && c0 == 1, "decrement to zero");
+	kani::cover!(!up && c0 == u32::MAX, "locked stays locked");
+}
+
+fn b_u8_dec_ref_frees() {
+	// write_dec_ref at count 1 frees the slot (tombstone pushed on the free list) and reports `false`
+	ghost_reset();
+	let es = 48usize;
+	let mut e: [u8; VES] = kani::any();
+	e[0] = 40;
+	e[1] = 0;
+	e[2] = 1;
+	e[3] = 0;
+	e[4] = 0;
+	e[5] = 0;
+	view_put(3, e, 42);
+	let old_head: u64 = kani::any();
+	kani::assume(old_head < 5);
+	let t = mk_table(es as u16, false, true, 5, old_head);
+	let overlays = RwLock::new(LogOverlays::with_columns(0));
+	let mut w = LogWriter::new(&overlays, 9);
+	let r = ok(t.write_dec_ref(3, &mut w));
+	assert!(r == Some(false), "U8.dec_ref.reports_removed_at_zero");
+	assert!(unsafe { REC_N } == 1 && unsafe { REC_IDX[0] } == 3 && unsafe { REC_LEN[0] } == 10, "U8.dec_ref.slot_tombstoned");
+	let tq: usize = kani::any();
+	kani::assume(tq < 10);
+	let exp = if tq < 2 { 0xff } else { (old_head >> (8 * (tq as u32 - 2))) as u8 };
+	assert!(unsafe { REC_DATA[0][tq] } == exp, "U8.dec_ref.tombstone_links_previous_head");
+	assert!(t.last_removed.load(Ordering::Relaxed) == 3, "U8.dec_ref.slot_is_new_free_list_head");
+	assert!(t.dirty_header.load(Ordering::Relaxed), "U8.dec_ref.header_marked_dirty");
+	// inc on the (now) tombstone is refused
+	let r2 = ok(t.change_ref(3, 1, &mut w));
+	assert!(r2 == Some(false), "U8.change_ref.tombstone_refused");
+}
+
+// ================================================================== U14: free list and table header
+fn b_u14_free_list() {
+	ghost_reset();
+	let es = 48usize;
+	let filled: u64 = kani::any();
+	kani::assume(filled >= 4 && filled <= 7);
+	let head: u64 = kani::any();
+	kani::assume(head < filled && head != 3);
+	if head != 0 {
+		// existing head is a tombstone with an arbitrary in-range link
+		let nx: u64 = kani::any();
+		kani::assume(nx < filled);
+		view_put(1, tombstone_entry(nx), 10);
+		view_put(2, tombstone_entry(nx), 10);
+		view_put(4, tombstone_entry(nx), 10);
+		view_put(5, tombstone_entry(nx), 10);
+		view_put(6, tombstone_entry(nx), 10);
+	}
+	let t = mk_table(es as u16, false, false, filled, head);
+	let overlays = RwLock::new(LogOverlays::with_columns(0));
+	let mut w = LogWriter::new(&overlays, 9);
+	// free slot 3
+	assert!(ok(t.clear_slot(3, &mut w)).is_some());
+	assert!(unsafe { REC_N } == 1 && unsafe { REC_IDX[0] } == 3 && unsafe { REC_LEN[0] } == 10, "U14.clear_slot.one_tombstone_record");
+	let tq: usize = kani::any();
+	kani::assume(tq < 10);
+	let exp = if tq < 2 { 0xff } else { (head >> (8 * (tq as u32 - 2))) as u8 };
+	assert!(unsafe { REC_DATA[0][tq] } == exp, "U14.clear_slot.links_previous_head");
+	assert!(t.last_removed.load(Ordering::Relaxed) == 3, "U14.clear_slot.becomes_head");
+	assert!(t.filled.load(Ordering::Relaxed) == filled, "U14.clear_slot.fill_mark_unchanged");
+	assert!(t.dirty_header.load(Ordering::Relaxed), "U14.clear_slot.header_marked_dirty");
+	// header record
+	assert!(ok(t.complete_plan(&mut w)).is_some());
+	assert!(unsafe { REC_N } == 2 && unsafe { REC_IDX[1] } == 0 && unsafe { REC_LEN[1] } == 16, "U14.complete_plan.header_record_when_dirty");
+	let mut hb = [0u8; 16];
+	hb.copy_from_slice(unsafe { &REC_DATA[1][..16] });
+	let h = Header(hb);
+	assert!(h.last_removed() == 3 && h.filled() == filled, "U14.complete_plan.header_content");
+	assert!(!t.dirty_header.load(Ordering::Relaxed), "U14.complete_plan.clears_dirty");
+	assert!(ok(t.complete_plan(&mut w)).is_some());
+	assert!(unsafe { REC_N } == 2, "U14.complete_plan.no_record_when_clean");
+	// LIFO: the freed slot is handed out first and the previous head is restored
+	let r = ok(t.next_free(&mut w));
+	assert!(r == Some(3), "U14.next_free.pops_last_freed_slot");
+	assert!(t.last_removed.load(Ordering::Relaxed) == head, "U14.next_free.restores_previous_head");
+	assert!(t.filled.load(Ordering::Relaxed) == filled, "U14.next_free.pop_does_not_grow");
+	assert!(t.dirty_header.load(Ordering::Relaxed), "U14.next_free.pop_marks_header_dirty");
+	kani::cover!(head != 0, "non-empty list");
+	kani::cover!(head == 0, "empty list");
+}
+
+fn b_u14_next_free_grow_and_reject() {
+	ghost_reset();
+	let filled: u64 = kani::any();
+	kani::assume(filled >= 1 && filled < u64::MAX);
+	let t = mk_table(48, false, false, filled, 0);
+	let overlays = RwLock::new(LogOverlays::with_columns(0));
+	let mut w = LogWriter::new(&overlays, 9);
+	let r = ok(t.next_free(&mut w));
+	assert!(r == Some(filled), "U14.next_free.empty_list_takes_fill_mark");
+	assert!(t.filled.load(Ordering::Relaxed) == filled + 1, "U14.next_free.fill_mark_advanced_by_one");
+	assert!(t.last_removed.load(Ordering::Relaxed) == 0);
+	assert!(t.dirty_header.load(Ordering::Relaxed), "U14.next_free.grow_marks_header_dirty");
+	// a free-list link at or beyond the fill mark is rejected, nothing is handed out
+	ghost_reset();
+	let bad: u64 = kani::any();
+	let t2 = mk_table(48, false, false, 5, 2);
+	kani::assume(bad >= 5);
+	view_put(2, tombstone_entry(bad), 10);
+	let r2 = ok(t2.next_free(&mut w));
+	assert!(r2.is_none(), "U14.next_free.rejects_out_of_range_link");
+	assert!(t2.last_removed.load(Ordering::Relaxed) == 2 && t2.filled.load(Ordering::Relaxed) == 5, "U14.next_free.rejected_link_changes_nothing");
+}
+
+fn b_u14_remove_chain() {
+	// removing a 3-part chain tombstones every part, head first, each linked in front of the previous head
+	ghost_reset();
+	let es = 48usize;
+	let mut e0: [u8; VES] = kani::any();
+	let mut e1: [u8; VES] = kani::any();
+	let mut e2: [u8; VES] = kani::any();
+	e0[0] = 0xfd;
+	e0[1] = 0xff;
+	put_u64(&mut e0, 2, 1);
+	e1[0] = 0xfe;
+	e1[1] = 0xff;
+	put_u64(&mut e1, 2, 2);
+	e2[0] = 9;
+	e2[1] = 0;
+	view_put(3, e0, es);
+	view_put(1, e1, es);
+	view_put(2, e2, 11);
+	let t = mk_table(es as u16, true, false, 5, 4);
+	let overlays = RwLock::new(LogOverlays::with_columns(0));
+	let mut w = LogWriter::new(&overlays, 9);
+	assert!(ok(t.write_remove_plan(3, &mut w)).is_some(), "U14.remove_chain.no_error");
+	assert!(unsafe { REC_N } == 3, "U14.remove_chain.every_part_freed_once");
+	let order: [u64; 3] = [3, 1, 2];
+	let prev: [u64; 3] = [4, 3, 1];
+	let s: usize = kani::any();
+	kani::assume(s < 3);
+	assert!(unsafe { REC_IDX[s] } == order[s] && unsafe { REC_LEN[s] } == 10, "U14.remove_chain.parts_in_chain_order");
+	let tq: usize = kani::any();
+	kani::assume(tq < 10);
+	let exp = if tq < 2 { 0xff } else { (prev[s] >> (8 * (tq as u32 - 2))) as u8 };
+	assert!(unsafe { REC_DATA[s][tq] } == exp, "U14.remove_chain.free_list_links");
+	assert!(t.last_removed.load(Ordering::Relaxed) == 2, "U14.remove_chain.head_is_last_part");
+}
+
+// ================================================================== U9 (value table): validation vs application of log records
+pub(crate) static mut WR_N: usize = 0;
+pub(crate) static mut WR_OFF: u64 = 0;
+pub(crate) static mut WR_LEN: usize = 0;
+pub(crate) fn stub_write_at(_f: &crate::file::TableFile, buf: &[u8], offset: u64) -> Result<()> {
+	unsafe {
+		WR_N += 1;
+		WR_OFF = offset;
+		WR_LEN = buf.len();
+	}
+	Ok(())
+}
+macro_rules! reader_harness {
+	($(#[$m:meta])* $name:ident, $body:expr) => {
+		#[kani::proof]
+		$(#[$m])*
+		#[kani::stub(crate::log::LogReader::read, crate::log::verif_log::stub_read)]
+		#[kani::stub(crate::file::TableFile::write_at, stub_write_at)]
+		#[kani::stub(crc32fast::Hasher::new, crate::verif_stubs::crc_hasher_new)]
+		#[kani::stub(parking_lot::RawRwLock::lock_shared_slow, crate::verif_stubs::lock_shared_slow)]
+		#[kani::stub(parking_lot::RawRwLock::unlock_shared_slow, crate::verif_stubs::unlock_shared_slow)]
+		#[kani::stub(parking_lot::RawRwLock::lock_exclusive_slow, crate::verif_stubs::lock_exclusive_slow)]
+		#[kani::stub(parking_lot::RawRwLock::unlock_exclusive_slow, crate::verif_stubs::unlock_exclusive_slow)]
+		#[kani::stub(std::fmt::format, crate::verif_stubs::fmt_format)]
+		fn $name() {
+			$body
+		}
+	};
+}
+
+fn u9_value_validate(es: u16, multipart: bool) {
+	use crate::log::verif_log as vl;
+	let fail_at: usize = kani::any();
+	vl::reader_reset([0u8; 8], fail_at);
+	let t = mk_table(es, multipart, kani::any(), 5, 0);
+	let index: u64 = kani::any();
+	let mut r = vl::mk_reader();
+	// obligation 1: validation returns (Ok or Err) for whatever bytes the record holds (the entry buffer is arbitrary
+	// memory) -- a panic / out-of-bounds slice fails the proof
+	let v = ok(t.validate_plan(index, &mut r));
+	let (calls_v, bytes_v, maxlen_v) = vl::reader_stats();
+	if v.is_some() {
+		assert!(calls_v <= fail_at, "U9.value.ok_only_if_every_read_succeeded");
+		if index == 0 {
+			assert!(calls_v == 1 && bytes_v == 16, "U9.value.header_record_is_16_bytes");
+		} else {
+			assert!(calls_v == 2, "U9.value.size_word_then_payload");
+			// obligation 2: a record accepted by validation fits its slot (the apply pass writes what it reads, U9.value.enact_*)
+			assert!(bytes_v <= es as u64, "U9.value.validated_record_fits_slot");
+			assert!(bytes_v >= 2, "U9.value.size_word_always_consumed");
+		}
+	}
+	kani::cover!(v.is_some() && index != 0 && bytes_v == 10, "tombstone-sized record accepted");
+	kani::cover!(v.is_some() && index != 0 && bytes_v == es as u64, "slot-filling record accepted");
+	kani::cover!(v.is_none() && fail_at > 8, "record rejected by validation");
+	std::mem::forget(r);
+	std::mem::forget(t);
+}
+fn u9_value_enact(es: u16, multipart: bool) {
+	use crate::log::verif_log as vl;
+	vl::reader_reset([0u8; 8], usize::MAX);
+	let t = mk_table(es, multipart, kani::any(), 5, 0);
+	t.file.capacity.store(u64::MAX, Ordering::Relaxed);
+	let index: u64 = kani::any();
+	kani::assume(index < (1u64 << 47));
+	let mut r = vl::mk_reader();
+	unsafe {
+		WR_N = 0;
+	}
+	// the apply pass, on a record whose size word passes validation's bound (otherwise it may panic: that is what
+	// validation is for), reads a record and writes exactly the bytes it read at the slot's offset
+	let e = ok(t.enact_plan(index, &mut r));
+	let (calls_e, bytes_e, _m) = vl::reader_stats();
+	let (n, off, len) = unsafe { (WR_N, WR_OFF, WR_LEN) };
+	if e.is_some() {
+		assert!(n == 1, "U9.value.enact_exactly_one_write");
+		assert!(len as u64 == bytes_e, "U9.value.enact_writes_exactly_what_it_read");
+		assert!(off == index * es as u64, "U9.value.enact_write_at_slot_offset");
+		assert!((index == 0) == (calls_e == 1), "U9.value.enact_same_read_pattern_as_validate");
+	}
+	kani::cover!(e.is_some() && index != 0, "record applied");
+	std::mem::forget(r);
+	std::mem::forget(t);
+}
+reader_harness!(u9_value_validate_fixed32, u9_value_validate(32, false));
+reader_harness!(u9_value_validate_fixed4096, u9_value_validate(4096, false));
+reader_harness!(u9_value_validate_fixed_max, u9_value_validate(MAX_ENTRY_SIZE as u16, false));
+reader_harness!(u9_value_validate_multipart, u9_value_validate(MULTIPART_ENTRY_SIZE, true));
+reader_harness!(u9_value_enact_fixed32, u9_value_enact(32, false));
+reader_harness!(u9_value_enact_multipart, u9_value_enact(MULTIPART_ENTRY_SIZE, true));
+reader_harness!(canary_u9_value, {
+	use crate::log::verif_log as vl;
+	vl::reader_reset(kani::any(), kani::any());
+	let t = mk_table(32, false, false, 5, 0);
+	let mut r = vl::mk_reader();
+	let v = ok(t.validate_plan(kani::any(), &mut r));
+	assert!(v.is_none(), "CANARY");
+	std::mem::forget(r);
+	std::mem::forget(t);
+});
 
 /*@@GENERATED:table@@*/
